@@ -295,6 +295,13 @@ for nm, d in (("o1_h1", "1 offset, hash length 1"), ("o2_h1", "2 offsets, hash l
       d + " (concrete); stored key, fed chunk's 8-byte hash, offsets (any u64), size, the write loop's byte count: symbolic; a second unrelated entry",
       "feed itself on its HIT and miss path over the real index lookup: the write loop is entered exactly once iff the truncated hashes agree, with exactly the entry's offsets (all, in order) and the fed chunk; its byte count / error is handed on unchanged (a failed write never becomes success); the entry is gone afterwards, a second feed of the same chunk writes nothing, unrelated entries stay; the output is never touched outside the write loop",
       ["CloneOutput::feed", "ChunkIndex::remove", "ChunkIndex::contains"], [MODEL_MAP, STUB_WRITE_LOOP])
+STUB_SYNC = "feed unit harnesses run in clone_output_sync.rs, a generated copy of clone_output.rs in which `async fn` became `fn` and every `.await` on a leaf future became a single poll that must be ready (verif_now): with always-ready mocks the same computation as the repository's text, but no coroutines; orderings that need a Pending between two awaits are outside it"
+for nm, d, faults in (("o1_h1_s2", "1 offset, hash length 1, chunk of 2 bytes", False), ("o2_h2_s3", "2 offsets, hash length 2, chunk of 3 bytes", False),
+                      ("o2_h1_s2_faults", "2 offsets, hash length 1, chunk of 2 bytes; the k-th write fails or is torn (k symbolic)", True)):
+    h("c13_feed_unit_" + nm, ["C13", "C02", "C05"] if faults else ["C13", "C02"], "quick",
+      d + " (concrete); stored key, fed chunk's 8-byte hash, offsets (anywhere in a 12-byte file, incl. overlapping), prior file content: symbolic; a second unrelated entry",
+      "feed as ONE unit over the real index lookup and the REAL write loop: a chunk whose truncated hash is in the index is written -- all of its bytes, one seek per location, at the entry's offsets -- and the entry is gone; any other chunk writes nothing and leaves the file untouched; a second feed of the same chunk writes nothing; feed never adds to the index" + ("; a failed write fails the feed, a torn write is completed" if faults else ""),
+      ["CloneOutput::feed", "CloneOutput::write_offset", "ChunkIndex::remove", "ChunkIndex::contains", "tokio::io::AsyncWriteExt::write_all", "tokio::io::AsyncSeekExt::seek"], [MODEL_MAP, STUB_SYNC, MOCK_IO], heavy=True)
 h("c05_write_offset_fault_step", ["C05", "C13"], "quick", "one destination; the k-th seek fails, the k-th write fails, or the k-th write accepts only 0..2 bytes: k and the prefix symbolic; chunk 1..3 bytes",
   "a failed or torn write/seek at any point => Err; Ok only when every byte reached the output contiguously from the destination (write_all's retry included); 0 bytes accepted => WriteZero error",
   ["CloneOutput::write_offset"], [MOCK_IO])
@@ -335,6 +342,10 @@ h("c15_server_misbehaves_range_request", ["C15"], "quick", "open body at first<8
 h("c15_server_sends_too_much", ["C15"], "quick", "as above with a fragment LONGER than what is missing", "a server that sends more than the range asked for must not panic the request state machine", ["HttpRangeRequest::poll_read_fail"], [STUB_REQWEST, STUB_FORMAT, STUB_SLEEP])
 h("c15_single_declared_length_any", ["C15"], "quick", "offset<16, size 1..5, one arbitrary reply; the reply's declared Content-Length: ANY u64 or none",
   "the one-shot read behind read_at (header region over HTTP) never panics and never sizes an allocation by what the server declares", ["HttpRangeRequest::single", "HttpRangeRequest::single_fail"], [STUB_REQWEST, STUB_FORMAT, STUB_SLEEP])
+for nm, d in (("empty_archive", "an archive with NO chunk descriptors (what `bita compress` writes for an empty source)"), ("one_chunk", "1 descriptor, any source size"), ("two_chunks", "2 descriptors, any source sizes")):
+    h("c15_info_average_" + nm, ["C15"], "quick", d,
+      "the 'Average chunk size' expression of `bita info` / of the summary `bita compress` prints (extracted textually from src/info_cmd.rs on every run) evaluates without a panic and is the mean source size (found F16: division by zero for an archive without chunks)",
+      ["info_cmd.rs: average chunk size expression (extracted)", "Archive::chunk_descriptors"])
 h("c15_chunk_reader_zero_size", ["C15"], "quick", "2 chunks, the first with stored size 0; one answer of the inner request", "a descriptor with stored size 0 must not panic the chunk reader", CR, [STUB_REQWEST, STUB_INNER])
 h("c15_accepted_params_run_rollsum", ["C15"], "quick", "RollSum: min, max, window 0..9, filter bits any u32; 6 symbolic bytes",
   "every parameter set chunker_config_from_params ACCEPTS constructs and runs one next() without a panic and never yields an empty chunk", ["chunker_config_from_params"] + RHC + RS)
